@@ -2,6 +2,7 @@ import Lean.Data.Json
 import GristModel
 import Driver.Treeview
 import Driver.Engine
+import Driver.Recalc
 import Driver.SchemaGen
 import Driver.CsvPost
 import Driver.Relabel
@@ -28,6 +29,7 @@ def handleStateless (m : String) (j : Json) : Except String Json :=
   | "relabel" => Relabel.handleRelabel j
   | "csvpost" => handleCsvPost j
   | "schemagen" => handleSchemaGen j
+  | "recalc" => Grist.Driver.Recalc.handleRecalc j
   | _ => throw s!"unknown model {m}"
 
 structure AllState where
